@@ -466,6 +466,18 @@ func ruleC09Sem(e *Env) {
 			return sv, nil
 		}
 	}
+	// the offset form: start and end of the same captures (subject[start:end] is the capture again)
+	for _, n := range []string{"(*regexp.Regexp).FindSubmatchIndex", "(*regexp.Regexp).FindStringSubmatchIndex"} {
+		sums[n] = func(ev *pred.Evaluator, args []pred.Val) (pred.Val, error) {
+			sv := &pred.SliceV{}
+			for i := 0; i < 4; i++ {
+				for _, end := range []bool{false, true} {
+					sv.Elems = append(sv.Elems, &pred.Cell{V: pred.Offset{Cap: pred.Sym{Name: fmt.Sprintf("cap%d", i)}, End: end}, Name: "offset"})
+				}
+			}
+			return sv, nil
+		}
+	}
 	basicBit, _ := tabConstInt(e, "date", "RuleDisableBasic")
 	// the tree is extracted once per layout (only the length and the positions of '-' matter) and rule setting:
 	// the construction and the guard must not depend on the number of year digits or on the separators
